@@ -279,6 +279,44 @@ impl KindFn for Cell<'_> {
                         if b.is_ok() { "Ok" } else { "Err" }
                     ),
                 }
+                // the same comparison on readers POSITIONED first (seek(k) with the index; one pair consumed without it):
+                // the typed bulk read and the generic bulk read start from the same place
+                if self.n >= 2 {
+                    let k = self.n / 2;
+                    let position = |rd: &mut shapefile::Reader<std::io::Cursor<Vec<u8>>, std::io::Cursor<Vec<u8>>>| -> Result<(), Fail> {
+                        if with_shx {
+                            rd.seek(k).map_err(|e| Fail::new("seek-error", err_str(&e)))
+                        } else {
+                            for _ in 0..k {
+                                let _ = rd.iter_shapes_and_records().next();
+                            }
+                            Ok(())
+                        }
+                    };
+                    let (mut a, mut b) = (mk()?, mk()?);
+                    position(&mut a)?;
+                    position(&mut b)?;
+                    let typed_tail = a.read_as::<S, dbase::Record>();
+                    let generic_tail = b.read();
+                    if let (Ok(t), Ok(g)) = (&typed_tail, &generic_tail) {
+                        ensure!(
+                            t.len() == g.len(),
+                            "typed-vs-generic",
+                            "after positioning the complete reader at pair {} of {}: read_as::<{}> returns {} pairs, read() returns {}",
+                            k,
+                            self.n,
+                            s_ty.name(),
+                            t.len(),
+                            g.len()
+                        );
+                        for (i, ((x, _), (y, _))) in t.iter().zip(g.iter()).enumerate() {
+                            ensure!(x.view() == view_shape(y), "typed-vs-generic", "after positioning at pair {}: typed pair {} holds another shape than the generic one", k, i);
+                        }
+                    }
+                    if s_ty == self.actual {
+                        ensure!(typed_tail.is_ok() == generic_tail.is_ok(), "typed-generic-disagree", "after positioning at pair {}: read_as is {}, read() is {}", k, if typed_tail.is_ok() { "Ok" } else { "Err" }, if generic_tail.is_ok() { "Ok" } else { "Err" });
+                    }
+                }
                 match first {
                     None => ensure!(self.n == 0, "count", "iter_shapes_and_records_as yields nothing for {} records", self.n),
                     Some(Ok((v, _))) => ensure!(
